@@ -466,6 +466,31 @@ func (t *translator) stmts(list []ast.Stmt, next func() string, cont, brk string
 		after := tail()
 		return "(let " + exit + " := " + stBinders + after + "; List.foldr (fun " + v + " " + kont + " => " + pre + stBinders + body + ") " + exit + " " + t.expr(x.X) + " " + t.stArgs() + ")"
 	case *ast.ForStmt:
+		// `for e := L.Back(); e != nil; e = e.Prev()` / `L.Front() … e.Next()`: container/list walked from either end
+		if as, ok := x.Init.(*ast.AssignStmt); ok && x.Cond != nil && x.Post != nil && len(as.Lhs) == 1 && len(as.Rhs) == 1 {
+			if id, ok := as.Lhs[0].(*ast.Ident); ok {
+				init, cond, post := goStr(as.Rhs[0]), goStr(x.Cond), goStr(x.Post)
+				var lst string
+				rev := false
+				switch {
+				case strings.HasSuffix(init, ".Back()") && cond == id.Name+" != nil" && post == id.Name+" = "+id.Name+".Prev()":
+					lst, rev = strings.TrimSuffix(init, ".Back()"), true
+				case strings.HasSuffix(init, ".Front()") && cond == id.Name+" != nil" && post == id.Name+" = "+id.Name+".Next()":
+					lst = strings.TrimSuffix(init, ".Front()")
+				}
+				if ln, ok := t.spec.exprMap[lst]; ok && lst != "" {
+					t.loops++
+					kont := fmt.Sprintf("kont%d", t.loops)
+					exit := fmt.Sprintf("exit%d", t.loops)
+					body := t.stmts(x.Body.List, func() string { return strings.TrimSpace(kont + " " + t.stArgs()) }, kont, exit)
+					after := tail()
+					if rev {
+						ln = "(" + ln + ").reverse"
+					}
+					return "(let " + exit + " := " + t.stFun() + after + "; List.foldr (fun " + id.Name + " " + kont + " => " + t.stFun() + body + ") " + exit + " " + ln + " " + t.stArgs() + ")"
+				}
+			}
+		}
 		// `for cond { body }`: a recursive function with fuel (the spec says how much is enough)
 		if x.Init != nil || x.Post != nil || x.Cond == nil || t.spec.loopFuel == "" || len(t.spec.stateTy) != len(t.spec.stateLn) {
 			return t.fail("unsupported for statement")
@@ -812,6 +837,58 @@ func genLevel(repo, out string) {
 		d = fmt.Sprintf("/-- UNTRANSLATABLE: %s -/\ndef %s : Unit := ()\n", strings.ReplaceAll(err.Error(), "-/", "- /"), spec.leanName)
 	}
 	sb.WriteString(d + "\nend GenLevel\n")
+	if err := os.WriteFile(out, []byte(sb.String()), 0644); err != nil {
+		fatal(err)
+	}
+}
+
+// genDB writes Generated/DB.lean: DB.search
+func genDB(repo, out string) {
+	p := parseDir(repo)
+	var sb strings.Builder
+	sb.WriteString("import Originium.Model.Levels\n")
+	sb.WriteString("/-! GENERATED by /verif/extract (gotrans.go) from /repo/db.go on every check run. Do not edit.\n")
+	sb.WriteString("    `search`: DB.search — the order in which the generations are consulted.  `lb g key` stands for the lower bound of a\n")
+	sb.WriteString("    memtable (`memtable.lowerBound`), `slb key` for `levelManager.searchLowerBound`; `types.IsSameKey` compares the user\n")
+	sb.WriteString("    keys; the result is the entry handed to `types.Value`.  `Model/DBTie.lean` proves that this is `DB.get`. -/\n")
+	sb.WriteString("set_option linter.unusedVariables false\nnamespace GenDB\nopen VKey Levels\n\n")
+	fd := findFunc(p, "DB", "search")
+	dflt := "(⟨⟨[], 0⟩, [], false, 0⟩ : E)"
+	spec := transSpec{
+		leanName: "search",
+		binders:  "(lb : List E → VK → Option E) (slb : VK → Option E) (mem : List E) (imms : List (List E)) (key : VK)",
+		retType:  "Option E",
+		exprMap: map[string]string{"db.immutables": "imms", "e.Value.(*memtable)": "e",
+			"types.IsSameKey(key, mtEntry.Key)": "(key.user == mtEntry.key.user)", "types.IsSameKey(key, imtEntry.Key)": "(key.user == imtEntry.key.user)",
+			"types.IsSameKey(key, sstEntry.Key)": "(key.user == sstEntry.key.user)",
+			"types.Value(mtEntry)": "(some mtEntry)", "types.Value(imtEntry)": "(some imtEntry)", "types.Value(sstEntry)": "(some sstEntry)"},
+		binds: map[string][][2]string{
+			"db.memtable.lowerBound(key)":       {{"mtEntry", "((lb mem key).getD " + dflt + ")"}, {"ok", "(lb mem key).isSome"}},
+			"imt.lowerBound(key)":               {{"imtEntry", "((lb imt key).getD " + dflt + ")"}, {"ok", "(lb imt key).isSome"}},
+			"db.manager.searchLowerBound(key)":  {{"sstEntry", "((slb key).getD " + dflt + ")"}, {"ok", "(slb key).isSome"}},
+		},
+		ret: func(vals []string, st []string) string {
+			if len(vals) == 2 {
+				return "none"
+			}
+			return vals[0]
+		},
+		fallOff:  func(st []string) string { return "none" },
+		panicVal: "none",
+		skipCall: func(c *ast.CallExpr) bool {
+			s := goStr(c)
+			return strings.HasPrefix(s, "vhook.") || s == "db.mu.RLock()" || s == "db.mu.RUnlock()"
+		},
+	}
+	var d string
+	err := fmt.Errorf("DB.search not found")
+	if fd != nil {
+		d, err = translateFunc(fd, spec)
+	}
+	if err != nil {
+		d = fmt.Sprintf("/-- UNTRANSLATABLE: %s -/\ndef %s : Unit := ()\n", strings.ReplaceAll(err.Error(), "-/", "- /"), spec.leanName)
+	}
+	sb.WriteString(d + "\nend GenDB\n")
 	if err := os.WriteFile(out, []byte(sb.String()), 0644); err != nil {
 		fatal(err)
 	}
